@@ -6,6 +6,7 @@
      srv_asm   [mode; [chunk...]]                  the real ModbusTCPAssembler.ReceiveRead, called once
                per chunk on one assembler, and once with all bytes on a fresh one
                outcome [[ [cumulative bytes returned; response==nil; status] per call ]; [bytes; nil; status]]
+               (the nil flag is 2 when the returned slice was found changed after the later calls)
      srv_conn  [mode; client; [read...]; stream]   the real server.Server via Serve over an in-memory
                listener; [read...] are the non-empty reads the connection goroutine made
                outcome [[cumulative bytes written after each read]; status; number of Write calls;
@@ -220,6 +221,13 @@ Definition steps_of (v : val) : option (list (list N * Z)) :=
                                       | _, _ => None end) (Some []) vs
   | _ => None
   end.
+(* the harness looks at every returned response again after the later calls: flag 2 (in place of the
+   nil flag) = its bytes have changed since it was returned *)
+Definition steps_altered (v : val) : bool :=
+  match v with
+  | VL vs => existsb (fun x => match x with VL [_; VI 2%Z; _] => true | _ => false end) vs
+  | _ => false
+  end.
 Definition whole_of (v : val) : option (list N * Z) :=
   match v with VL [VB b; VI _; VI st] => Some (b, st) | _ => None end.
 
@@ -274,6 +282,8 @@ Definition verdict_asm_C15 (a : list val) (out : val) : N :=
   match a, out with
   | [VI m; cv], VL [sv; wv] =>
       if negb (judged_mode m) then NOT_JUDGED else
+      (* what is returned for a read is what gets sent: it must not change afterwards *)
+      if steps_altered sv then VIOLATES else
       match chunks_of cv, steps_of sv, whole_of wv with
       | Some chunks, Some steps, Some (wb, wst) => check_C15 chunks steps wb wst
       | _, _, _ => VIOLATES
